@@ -92,7 +92,8 @@ class Contract:
             return Val('rec', x={k: self.havoc_local(name + '.' + k, f) for k, f in v.x.items()})
         if v.sort in ('func', 'const', 'none', 'excobj', 'tuple', 'litlist', 'litdict', 'map', 'seq'):
             return Val('opaque', x=name + "'")
-        return E.fresh(v.sort, name)
+        try: return E.fresh(v.sort, name)
+        except NotImplementedError: return v       # values of contract-declared abstract sorts are immutable tokens
 
 
 class Obligation:
